@@ -337,7 +337,7 @@ def r_layout_tables(ctx, rid, group=LAYOUT_GROUP, floor=30):
 def check(ctx):
     r_layout_tables(ctx, 'R07.10')
     from . import c04
-    c04.group_rule(ctx, 'R07.11', r"^(<(types|value)::[\w:]+(<[^>]*>)? as std::convert::(From|TryFrom)<.*>>::(from|try_from)(::\{closure#\d+\})*|<types::\w+ as types::TypeDeconstructible>::\w+|types::TypeDeconstructible::is_unit|<(&?types::\w+|&?value::\w+|value::Destructor<'_>) as miniscript::iter::TreeLike>::as_node|types::UIntType::two_n|value::UIntValue::(get_type|is_of_type)|<value::UIntValue as std::convert::From<(u\d+|num::U256)>>::from)$", 'type deconstructors and the children of type / value tree nodes in order', 20)
+    c04.group_rule(ctx, 'R07.11', r"^(num::(NonZero)?Pow2Usize::\w+|<num::(NonZero)?Pow2Usize as (parse::PestParse>::parse|std::str::FromStr>::from_str)(::\{closure#\d+\})*|<(types|value)::[\w:]+(<[^>]*>)? as std::convert::(From|TryFrom)<.*>>::(from|try_from)(::\{closure#\d+\})*|<types::\w+ as types::TypeDeconstructible>::\w+|types::TypeDeconstructible::is_unit|<(&?types::\w+|&?value::\w+|value::Destructor<'_>) as miniscript::iter::TreeLike>::as_node|types::UIntType::two_n|value::UIntValue::(get_type|is_of_type)|<value::UIntValue as std::convert::From<(u\d+|num::U256)>>::from)$", 'type deconstructors and the children of type / value tree nodes in order', 20)
     r_value_to_structural(ctx)
     r_reconstruct(ctx)
     layout.r_btree(ctx, 'R07.1')
